@@ -423,20 +423,34 @@ Definition req_hostname (rhost : bytes) : bytes := host_only rhost.
 (* the host the vhost trie is searched for: Match(hostname + "/") *)
 Definition route_host (rhost : bytes) : bytes := vhost_key (req_hostname rhost ++ [SLASH]).
 
-(* the SNI value is compared to the host name the site was looked up by (routedHost) *)
-Definition strict_fail (c : tcfg) (tls : option bytes) (routed : bytes) : bool :=
-  match tls with
-  | Some sni => demands c && negb (beq (to_lower sni) routed)
+(* Server.handshakeWithoutSNIElsewhere: a handshake without SNI is governed by the default server
+   name or else by a site named by the local IP address of the connection before any catch-all
+   config is considered (dflt = certmagic.Default.DefaultServerName, conn = the LocalAddr of the
+   connection as found in the request context) *)
+Definition sniless_elsewhere (sites : list site) (dflt : bytes) (conn : option bytes) : bool :=
+  negb (is_nil (trim_space dflt)) ||
+  match conn with
+  | Some a => existsb (fun s => beq (host (s_tls s)) (host_only a)) sites
   | None => false
   end.
 
-Definition serve (sites : list site) (tls : option bytes) (rhost : bytes) : outcome :=
+(* the SNI value is compared to the host name the site was looked up by (routedHost); a
+   connection without SNI must in addition not have been governed elsewhere *)
+Definition strict_fail (c : tcfg) (tls : option bytes) (routed : bytes) (elsewhere : bool) : bool :=
+  match tls with
+  | Some sni => demands c && (negb (beq (to_lower sni) routed) || (is_nil sni && elsewhere))
+  | None => false
+  end.
+
+Definition serve (sites : list site) (dflt : bytes) (conn : option bytes) (tls : option bytes)
+           (rhost : bytes) : outcome :=
   match vmatch (vhosts sites) (route_host rhost) with
   | None => NoSite
   | Some (_, i) =>
       match nth_error sites i with
       | None => NoSite
-      | Some s => if strict_fail (s_tls s) tls (route_host rhost) then Forbidden i else Served i
+      | Some s => if strict_fail (s_tls s) tls (route_host rhost) (sniless_elsewhere sites dflt conn)
+                  then Forbidden i else Served i
       end
   end.
 
@@ -601,8 +615,8 @@ Definition policy_compatible (x y : tcfg) : bool :=
 Definition same_policy (x y : tcfg) : bool :=
   (cauth x =? cauth y) && listB_beq (ccerts x) (ccerts y).
 
-Definition serve_spec (sites : list site) (tls : option bytes) (rhost : bytes)
-           (obs_gov : lobs) (obs : sobs) : bool :=
+Definition serve_spec (sites : list site) (dflt : bytes) (conn : option bytes) (tls : option bytes)
+           (rhost : bytes) (obs_gov : lobs) (obs : sobs) : bool :=
   match obs with
   | SServed v =>
       match nth_error sites v, tls with
@@ -620,10 +634,18 @@ Definition serve_spec (sites : list site) (tls : option bytes) (rhost : bytes)
       | None, _ => false
       end
   | SForbidden =>
-      (* refused only for a name mismatch on a TLS connection (SNI against the host name the
-         request is routed by) *)
+      (* refused only on a TLS connection: for a name mismatch (SNI against the host name the
+         request is routed by), or, the handshake having carried no SNI, when a default server
+         name is set or a site is named by the local address (such a handshake is not tied to
+         the catch-all site) *)
       match tls with
-      | Some sni => negb (beq (to_lower sni) (route_host rhost))
+      | Some sni => negb (beq (to_lower sni) (route_host rhost)) ||
+                    (is_nil sni &&
+                     (negb (is_nil (trim_space dflt)) ||
+                      match conn with
+                      | Some a => existsb (fun s => beq (host (s_tls s)) (host_only a)) sites
+                      | None => false
+                      end))
       | None => false
       end
   | SNoSite => true
@@ -720,12 +742,12 @@ Definition judge (c : case) : N :=
         lookup_agree ml obs_gov &&
         match obs_gov with
         | LErr _ => true
-        | _ => sobs_beq (sobs_of (serve sites tls rhost)) obs
+        | _ => sobs_beq (sobs_of (serve sites dflt conn tls rhost)) obs
         end in
       let spec :=
         match obs_gov with
         | LErr _ => lookup_spec dc [] cfgs dflt conn sni obs_gov
-        | _ => lookup_spec dc [] cfgs dflt conn sni obs_gov && serve_spec sites tls rhost obs_gov obs
+        | _ => lookup_spec dc [] cfgs dflt conn sni obs_gov && serve_spec sites dflt conn tls rhost obs_gov obs
         end in
       verdict agree spec
   | CHandshake aesni raw conn sni cmin cmax rhost obs_start obs_version obs_asked obs =>
@@ -777,7 +799,7 @@ Definition judge (c : case) : N :=
                          | Some v => if version_feasible b v then v else 0
                          | None => 0 end in
                 let asked := negb (v =? 0) && negb (b_cauth b =? 0) in
-                let out := if v =? 0 then SNoSite else sobs_of (serve sites (Some sni) rhost) in
+                let out := if v =? 0 then SNoSite else sobs_of (serve sites [] (Some conn) (Some sni) rhost) in
                 (obs_version =? v) && Bool.eqb obs_asked asked && sobs_beq out obs in
               let agree := (obs_start =? 0) && existsb predicted cands in
               verdict agree spec
@@ -792,7 +814,7 @@ Definition served_under_foreign_policy (sites : list site) (dflt : bytes) (conn 
            (sni rhost : bytes) : Prop :=
   exists g v s k i c b,
     make_tls_config (default_ciphers true) [] (map (fun s => Some (s_tls s)) sites) = MkGroup g /\
-    serve sites (Some sni) rhost = Served v /\ nth_error sites v = Some s /\ demands (s_tls s) = true /\
+    serve sites dflt conn (Some sni) rhost = Served v /\ nth_error sites v = Some s /\ demands (s_tls s) = true /\
     get_config g dflt conn sni = Found k (i, c, Some b) /\ b_cauth b <> cauth (s_tls s).
 Definition open_site (a h : string) : site := mkS (bs a) (mkT (bs h) true TLS12 TLS13 [] [] [] true 0 [] false).
 Definition mtls_site (a h : string) : site := mkS (bs a) (mkT (bs h) true TLS12 TLS13 [] [] [] true 2 [] false).
